@@ -18,6 +18,9 @@ def dispatch(prop: str):
     if prop == "C12":
         from .engines import nixtext
         return nixtext.check
+    if prop == "C16":
+        from .engines import cli
+        return cli.check
     raise SystemExit(f"no check registered for {prop}")
 
 
